@@ -43,6 +43,16 @@ def run(ctx):
             failures.append({"case": cc.case_view(c), "why": why, "replay": {"expr": c["expr"], "loc": c["loc"], "prev": c["prev"]}})
     failures += [p for p in cc.harness_problems(recs + recs_b) if p["kind"] in ("hang", "crash")]
     mism = [{"case": cc.case_view(c), "what": "model and implementation return different results"} for c in cases if c["model"] != c["go"]]
+    # locations with transitions: "earliest" is then "no FRESH matching instant (one that is not the later occurrence of a
+    # local time repeated by a fall-back) lies between prev and the result" (the exact statement is C14's); a small batch
+    # around real transitions, judged by the per-second wall clock oracle and compared with the model on Go's zone tables
+    zn = 500 if ctx.tier == "quick" else 6000
+    zrecs = cc.run_sharded(hbin, dbin, "zone", ctx.seed + 3, zn, extra=["-zones", ",".join(cc.QUICK_ZONES)], shards=6)
+    zcases = [c for r in zrecs for c in r["cases"]]
+    failures += [{"case": cc.case_view(c), "why": ["in a location with transitions a matching instant that is not a repeat was passed over: " + c["oracle"]],
+                  "replay": {"expr": c["expr"], "loc": c["loc"], "prev": c["prev"]}}
+                 for c in zcases if c["oracle"].startswith("skipped-non-repeated")]
+    mism += [{"case": cc.case_view(c), "what": "model (on Go's zone table) and implementation return different results"} for c in zcases if c["model"] != c["go"]]
     # calendar helpers and L/W/# day targets: every leap year and every 9th year (thorough: every year) of 1969..2263
     ystep = 9 if ctx.tier == "quick" else 1
     naux, auxbad = cc.aux_compare(cc.run_aux(hbin, dbin, "cal", ystep) + cc.run_aux(hbin, dbin, "dayn", ystep))
@@ -83,6 +93,7 @@ def run(ctx):
         "model_mismatches": len(mism), "oracle_failures": len(failures),
         "results": {"fire": sum(1 for c in cases if c["go"].startswith("F")), "expired": sum(1 for c in cases if c["go"] == "E")},
         "brute_oracle_cases": sum(len(r["cases"]) for r in recs_b),
+        "zone_cases": len(zcases),
     })
     vlib.write_evidence(ctx, cov, assumptions=[
         "theorems are for fixed-offset locations (UTC included); locations with transitions are C14",
@@ -93,4 +104,4 @@ def run(ctx):
 
 def replay(ctx, path):
     obj = json.load(open(path))
-    return cc.replay_case(ctx, obj, lambda c: c["model"] != c["go"] or (c["ref"] not in ("-", "M") and c["ref"] != c["go"]))
+    return cc.replay_case(ctx, obj, lambda c: c["model"] != c["go"] or (c["ref"] not in ("-", "M") and c["ref"] != c["go"]) or str(c.get("oracle", "")).startswith("skipped-non-repeated"))
